@@ -251,6 +251,11 @@ class Check:
         """run the REAL code on the case; return canonical observation (python value)"""
         raise NotImplementedError
 
+    def model_applies(self, case):
+        """False: the case is outside the model's domain (e.g. non-dyadic floats for an Int-time model); it is run
+        on the real code and judged by the oracle only"""
+        return True
+
     def compare_view(self, case, obs):
         """the part of obs the model predicts, as the exact reply string of the driver"""
         return sx.dumps(obs)
@@ -400,7 +405,7 @@ def run(check, tier, seed, replay=None):
     validated = 0
     model_views = {}
     if check.exe:
-        idx = [i for i, o in enumerate(observations) if o is not None]
+        idx = [i for i, o in enumerate(observations) if o is not None and check.model_applies(cases[i])]
         try:
             outs = run_driver(check.exe, [sx.dumps(check.request(cases[i])) for i in idx]) if idx else []
         except Infra as ex:
